@@ -69,6 +69,22 @@ impl World {
         World { analysis, root, files: files.to_vec(), cur: vec![None; files.len()], cfg: cfg.clone(), with_lib, promoted_configs: 0 }
     }
 
+    /// Install configuration `cfg`: deserialized afresh, or (`by_clone`) as a clone of the
+    /// configuration in force with the sections the variants touch copied over.
+    pub fn install(&mut self, cfg: &Cfg) {
+        let target = emmyrc_for(cfg, &self.root, self.with_lib);
+        let rc = if cfg.by_clone {
+            let mut e = (*self.analysis.get_emmyrc()).clone();
+            e.runtime = target.runtime.clone();
+            e.strict = target.strict.clone();
+            e.diagnostics = target.diagnostics.clone();
+            e
+        } else {
+            target
+        };
+        self.analysis.update_config(Arc::new(rc));
+    }
+
     pub fn uri(&self, f: usize) -> lsp_types::Uri {
         file_path_to_uri(&self.root.join(&self.files[f].rel)).expect("uri")
     }
@@ -140,7 +156,7 @@ impl World {
                 // demand more than any caller of the API relies on.
                 let reparse = parse_class(cfg) != parse_class(&self.cfg);
                 self.cfg = cfg.clone();
-                self.analysis.update_config(Arc::new(emmyrc_for(cfg, &self.root, self.with_lib)));
+                self.install(cfg);
                 if reparse {
                     self.promoted_configs += 1;
                     let items: Vec<(usize, u32)> = self.cur.iter().enumerate().filter_map(|(f, v)| v.map(|v| (f, v))).collect();
@@ -149,7 +165,7 @@ impl World {
             }
             Op::ConfigReload { cfg } => {
                 self.cfg = cfg.clone();
-                self.analysis.update_config(Arc::new(emmyrc_for(cfg, &self.root, self.with_lib)));
+                self.install(cfg);
                 let items: Vec<(usize, u32)> = self.cur.iter().enumerate().filter_map(|(f, v)| v.map(|v| (f, v))).collect();
                 self.load(&items, true);
             }
@@ -224,7 +240,7 @@ fn parse_class(cfg: &Cfg) -> u32 {
 }
 
 fn gen_cfg(r: &mut Rng) -> Cfg {
-    Cfg { variant: *r.pick(&[0, 0, 0, 1, 2, 3, 4]) }
+    Cfg { variant: *r.pick(&[0, 0, 0, 1, 2, 3, 4]), by_clone: false }
 }
 
 /// Configuration for a mid-history change. Variants that change how text is *parsed* (language
@@ -235,9 +251,9 @@ fn gen_cfg_change(r: &mut Rng) -> Op {
     let v = *r.pick(&[0u32, 0, 1, 2, 3, 4, 5, 6, 5, 6]);
     let parse_relevant = matches!(v % 7, 1 | 2 | 5 | 6);
     if parse_relevant || r.chance(1, 2) {
-        Op::ConfigReload { cfg: Cfg { variant: v } }
+        Op::ConfigReload { cfg: Cfg { variant: v, by_clone: r.chance(1, 3) } }
     } else {
-        Op::Config { cfg: Cfg { variant: v } }
+        Op::Config { cfg: Cfg { variant: v, by_clone: r.chance(1, 3) } }
     }
 }
 
@@ -796,7 +812,7 @@ pub fn shrink(spec_v: &Value) -> Vec<Value> {
     }
     if spec.cfg.variant != 0 {
         let mut s = spec.clone();
-        s.cfg = Cfg { variant: 0 };
+        s.cfg = Cfg { variant: 0, by_clone: false };
         out.push(s);
     }
     out.into_iter().filter_map(|s| serde_json::to_value(s).ok()).collect()
